@@ -323,7 +323,7 @@ def run_case(case, ctx):
 
     tr = gen.make_track([tuple(p) for p in pts], ms)
     if (n + int(ms[-1] // 100)) % 4 == 3:
-        tr, _how = gen.derive(tr, (pts, ms))
+        tr, _how = gen.derive(tr, (pts, ms), allow=gen.DERIVE_HOWS + ["hidden_slots", "hidden_slots"])
     before = _snapshot(tr)
     P = list(zip(before["x"], before["y"]))
     if [gen.ms_from_fields(*f) for f in before["t"]] != list(ms):
